@@ -29,6 +29,7 @@ fn toks<T: ToTokens>(t: &T) -> String {
 enum Kind {
     Num,
     Bytes,
+    Tag,
     Other,
 }
 
@@ -56,9 +57,13 @@ struct Target {
     extra_params: Vec<(String, String)>,          // Coq-only parameters (coq name, type)
     has_self: bool,
     pmutmethod: HashMap<String, String>,          // fallible mutating method: res of the receiver's new value
-    smap: Vec<(String, String, String)>,          // statement text -> (variable, new value)
+    smap: Vec<(String, Vec<String>, Vec<String>)>, // statement text -> (variables, new values)
     letmap: HashMap<String, (String, bool)>,      // let <var> = ...  overridden: (coq term, is res)
     wrap64: bool,
+    rmutmethod: HashMap<String, String>,          // "name/arity" -> res (value * receiver's new value)
+    condmut: Vec<(String, Vec<String>, String)>,  // condition text -> (variables, option (new values)); None = condition true
+    retvars: Vec<String>,                         // retmode mutself: the function returns the final versions of these
+    recfuel: Option<String>,                      // recursive function: Fixpoint on a fuel parameter; panic site when it runs out
 }
 
 struct Tr<'a> {
@@ -78,12 +83,13 @@ enum K<'a> {
     LoopNext,                          // end of a for-loop body: go on with the next element
     Join(Vec<String>),                 // end of a branch that rejoins: yield the current versions of these variables
     Val,                               // a block used as a value (let x = if .. { ..; v } else { .. })
+    NoFall,                            // a branch that must not fall through (it returns)
 }
 
 impl<'a> Tr<'a> {
     fn fresh(&mut self, base: &str) -> String {
         self.fresh += 1;
-        format!("{}_{}", base.trim_start_matches('_'), self.fresh)
+        format!("{}_{}", base.trim_start_matches('_').replace('.', "_"), self.fresh)
     }
     fn lookup(&self, v: &str) -> Option<(String, Kind)> {
         for m in self.env.iter().rev() {
@@ -150,6 +156,8 @@ impl<'a> Tr<'a> {
             Expr::Lit(l) => match &l.lit {
                 Lit::Int(i) => Ok((format!("{}", i.base10_digits()), Kind::Num)),
                 Lit::Bool(b) => Ok((format!("{}", b.value), Kind::Other)),
+                Lit::Str(st) => Ok((byte_list(st.value().as_bytes()), Kind::Bytes)),
+                Lit::Char(c) => Ok((byte_list(c.value().to_string().as_bytes()), Kind::Bytes)),
                 _ => Err(format!("literal {}", text)),
             },
             Expr::Path(p) => {
@@ -193,6 +201,19 @@ impl<'a> Tr<'a> {
                     return Err(format!("partial expression on the right of a lazy operator: {}", text));
                 }
                 let bytes = lk == Kind::Bytes || rk == Kind::Bytes;
+                let tagk = lk == Kind::Tag || rk == Kind::Tag;
+                if tagk {
+                    let s = match b.op {
+                        BinOp::Eq(_) => format!("(tag_eqb {} {})", l, r),
+                        BinOp::Ne(_) => format!("(negb (tag_eqb {} {}))", l, r),
+                        BinOp::Le(_) => format!("(tag_le {} {})", l, r),
+                        BinOp::Ge(_) => format!("(tag_le {} {})", r, l),
+                        BinOp::Lt(_) => format!("(tag_lt {} {})", l, r),
+                        BinOp::Gt(_) => format!("(tag_lt {} {})", r, l),
+                        _ => return Err(format!("operator on tags in {}", text)),
+                    };
+                    return Ok((s, Kind::Other));
+                }
                 let s = match b.op {
                     BinOp::And(_) => format!("({} && {})", l, r),
                     BinOp::Or(_) => format!("({} || {})", l, r),
@@ -228,11 +249,37 @@ impl<'a> Tr<'a> {
                 };
                 Ok((s, k))
             }
+            Expr::Field(_) if self.lookup(&text).is_some() => Ok(self.lookup(&text).unwrap()),
             Expr::Field(f) => {
                 let member = toks(&f.member);
                 let (tmpl, kind) = self.t.fields.get(&member).cloned().ok_or(format!("field .{} in {}", member, text))?;
                 let (b, _) = self.expr(&f.base, binds)?;
                 Ok((format!("({})", Self::subst(&tmpl, &[b])), kind))
+            }
+            Expr::Index(ix) if !matches!(&*ix.index, Expr::Range(_)) && !self.t.imaps.contains_key(&toks(&ix.expr)) => {
+                // v[i] on a vector / slice: panics when i is out of range
+                let recv = toks(&ix.expr);
+                let kind = self.t.kinds.get(&format!("{}[]", recv)).cloned().unwrap_or(Kind::Other);
+                let (base, _) = self.expr(&ix.expr, binds)?;
+                let (i, _) = self.expr(&ix.index, binds)?;
+                let n = self.fresh("e");
+                binds.push((n.clone(), format!("vec_idx_p {} {} {}", self.t.panic_site, base, i)));
+                Ok((n, kind))
+            }
+            Expr::Range(r) => {
+                // a..b / a..=b as the sequence of numbers it iterates over
+                let lo = match &r.start {
+                    Some(s) => self.expr(s, binds)?.0,
+                    None => return Err(format!("open range {}", text)),
+                };
+                let hi = match &r.end {
+                    Some(s) => self.expr(s, binds)?.0,
+                    None => return Err(format!("open range {}", text)),
+                };
+                match r.limits {
+                    syn::RangeLimits::HalfOpen(_) => Ok((format!("(range_n {} {})", lo, hi), Kind::Other)),
+                    syn::RangeLimits::Closed(_) => Ok((format!("(range_n {} ({} + 1))", lo, hi), Kind::Other)),
+                }
             }
             Expr::Index(ix) if !matches!(&*ix.index, Expr::Range(_)) => {
                 // map[&Tag::X]: HashMap indexing panics on a missing key
@@ -276,7 +323,7 @@ impl<'a> Tr<'a> {
             }
             Expr::Index(ix) => {
                 // slices by range: &buf[a..b], &buf[..b], &buf[a..]
-                let (base, _) = self.expr(&ix.expr, binds)?;
+                let (base, bk) = self.expr(&ix.expr, binds)?;
                 if let Expr::Range(r) = &*ix.index {
                     let lo = match &r.start {
                         Some(s) => self.expr(s, binds)?.0,
@@ -287,8 +334,13 @@ impl<'a> Tr<'a> {
                         None => format!("(lenN {})", base),
                     };
                     let n = self.fresh("s");
-                    binds.push((n.clone(), format!("slice_n {} {} {} {}", self.t.panic_site, base, lo, hi)));
-                    Ok((n, Kind::Bytes))
+                    if bk == Kind::Bytes {
+                        binds.push((n.clone(), format!("slice_n {} {} {} {}", self.t.panic_site, base, lo, hi)));
+                        Ok((n, Kind::Bytes))
+                    } else {
+                        binds.push((n.clone(), format!("slice_l {} {} {} {}", self.t.panic_site, base, lo, hi)));
+                        Ok((n, Kind::Other))
+                    }
                 } else {
                     Err(format!("index {}", text))
                 }
@@ -464,7 +516,8 @@ impl<'a> Tr<'a> {
     fn ret(&mut self, e: &Expr) -> R<String> {
         let mut binds = Vec::new();
         let body = self.ret_inner(e, &mut binds)?;
-        Ok(Self::wrap_binds(binds, body))
+        // inside a loop body the returned outcome (with the partial operations it needs) is the loop's result
+        Ok(self.in_loop(Self::wrap_binds(binds, body)))
     }
 
     fn in_loop(&self, s: String) -> String {
@@ -479,32 +532,47 @@ impl<'a> Tr<'a> {
                 let f = toks(&c.func);
                 if f == "Ok" && c.args.len() == 1 {
                     let (v, _) = self.expr(&c.args[0], binds)?;
-                    return Ok(self.in_loop(format!("Ok {}", v)));
+                    return Ok(format!("Ok {}", v));
                 }
                 if f == "Err" && c.args.len() == 1 {
                     let v = self.error_value(&c.args[0], binds)?;
-                    return Ok(self.in_loop(format!("Err {}", v)));
+                    return Ok(format!("Err {}", v));
                 }
                 let r = self.res_expr(e, binds)?;
-                return Ok(self.in_loop(r));
+                return Ok(r);
             }
             Expr::Call(c) if mode == "option" => {
                 let f = toks(&c.func);
                 if f == "Some" && c.args.len() == 1 {
                     let (v, _) = self.expr(&c.args[0], binds)?;
-                    return Ok(self.in_loop(format!("Ok (Some {})", v)));
+                    return Ok(format!("Ok (Some {})", v));
                 }
             }
             Expr::Path(p) if mode == "option" && toks(p) == "None" => {
-                return Ok(self.in_loop("Ok None".to_string()));
+                return Ok("Ok None".to_string());
             }
             _ => {}
         }
+        if mode == "mutself" {
+            if let Expr::Call(c) = e {
+                let f = toks(&c.func);
+                if f == "Ok" && c.args.len() == 1 && toks(&c.args[0]) == "()" {
+                    let v = self.retvars_value()?;
+                    return Ok(v);
+                }
+                if f == "Err" && c.args.len() == 1 {
+                    let v = self.error_value(&c.args[0], binds)?;
+                    return Ok(format!("Err {}", v));
+                }
+            }
+            return Err(format!("returned expression not in the subset: {}", toks(e)));
+        }
         if mode == "result" {
+            // a variable or other plain value of type Result is not in the subset; a path bound to a res is
             return Err(format!("returned expression not in the subset: {}", toks(e)));
         }
         let (v, _) = self.expr(e, binds)?;
-        Ok(self.in_loop(format!("Ok {}", v)))
+        Ok(format!("Ok {}", v))
     }
 
     fn error_value(&mut self, e: &Expr, binds: &mut Vec<(String, String)>) -> R<String> {
@@ -526,14 +594,73 @@ impl<'a> Tr<'a> {
         }
     }
 
+    fn retvars_value(&self) -> R<String> {
+        let mut parts = Vec::new();
+        for v in &self.t.retvars {
+            parts.push(self.lookup(v).ok_or(format!("retvars variable {}", v))?.0);
+        }
+        Ok(match parts.len() {
+            0 => "Ok tt".to_string(),
+            1 => format!("Ok {}", parts[0]),
+            _ => format!("Ok ({})", parts.join(", ")),
+        })
+    }
+
+    fn mut_keys(&self) -> Vec<String> {
+        self.t.mutmethod.keys().chain(self.t.pmutmethod.keys()).chain(self.t.rmutmethod.keys()).cloned().collect()
+    }
+
+    fn mk_scan(&self) -> Scan {
+        Scan {
+            value_return: false,
+            assigned: Vec::new(),
+            mutmethods: self.mut_keys(),
+            stmt_vars: self
+                .t
+                .smap
+                .iter()
+                .map(|(k, vs, _)| (k.clone(), vs.clone()))
+                .chain(self.t.condmut.iter().map(|(k, vs, _)| (k.clone(), vs.clone())))
+                .collect(),
+        }
+    }
+
+    // a `for` pattern: a variable, `_`, or a (nested) tuple of those
+    fn for_pattern(&mut self, p: &Pat) -> R<String> {
+        match p {
+            Pat::Wild(_) => Ok("_".to_string()),
+            Pat::Ident(i) => {
+                let n = i.ident.to_string();
+                let kind = self.t.kinds.get(&n).cloned().unwrap_or(Kind::Other);
+                Ok(self.bind(&n, kind))
+            }
+            Pat::Reference(r) => self.for_pattern(&r.pat),
+            Pat::Tuple(t) => {
+                let mut parts = Vec::new();
+                for x in &t.elems {
+                    parts.push(self.for_pattern(x)?);
+                }
+                Ok(format!("'({})", parts.join(", ")).replace("'('", "'(").replace(", '(", ", ("))
+            }
+            _ => Err(format!("for pattern {}", toks(p))),
+        }
+    }
+
     // ---- statements
     fn finish(&mut self, k: &K) -> R<String> {
         match k {
             K::End => {
-                if self.t.retmode == "unit" { Ok("Ok tt".to_string()) } else { Err("control reaches the end of a non-unit function".into()) }
+                if self.t.retmode == "unit" {
+                    Ok("Ok tt".to_string())
+                } else if self.t.retmode == "mutself" {
+                    self.retvars_value()
+                } else {
+                    Err("control reaches the end of a non-unit function".into())
+                }
             }
             K::LoopNext => Ok("None".to_string()),
             K::Val => Err("a block used as a value must end in an expression".into()),
+            K::NoFall => Err("the branch of a mutating condition must return".into()),
             K::Join(vars) => {
                 let mut parts = Vec::new();
                 for v in vars {
@@ -619,6 +746,30 @@ impl<'a> Tr<'a> {
                     Ok(format!("let {} := {} in\n{}", c, term, restc))
                 }
             }
+            Stmt::Local(l) if l.init.as_ref().map(|i| self.rmut_call(&i.expr).is_some()).unwrap_or(false) => {
+                // let x = recv.m(args)?;  — m returns a value and advances the receiver (a cursor read)
+                let init = l.init.as_ref().unwrap();
+                let m = self.rmut_call(&init.expr).unwrap().clone();
+                let name = match &l.pat {
+                    Pat::Ident(i) => i.ident.to_string(),
+                    _ => return Err(format!("let pattern {}", toks(&l.pat))),
+                };
+                let key = format!("{}/{}", m.method, m.args.len());
+                let tmpl = self.t.rmutmethod.get(&key).cloned().unwrap();
+                let recv = toks(&m.receiver);
+                let mut binds = Vec::new();
+                let (r0, _) = self.expr(&m.receiver, &mut binds)?;
+                let mut args = vec![r0];
+                for a in &m.args {
+                    args.push(self.expr(a, &mut binds)?.0);
+                }
+                let v = Self::subst(&tmpl, &args);
+                let kind = self.t.kinds.get(&name).cloned().unwrap_or(Kind::Num);
+                let rc = self.rebind(&recv)?;
+                let c = self.bind(&name, kind);
+                let restc = self.seq(rest, k)?;
+                Ok(Self::wrap_binds(binds, format!("obind ({}) (fun '({}, {}) =>\n{})", v, c, rc, restc)))
+            }
             Stmt::Local(l) if l.init.as_ref().map(|i| matches!(&*i.expr, Expr::Match(m) if m.arms.iter().any(|a| self.arm_needs_block(&a.body)))).unwrap_or(false) => {
                 // let x = match e { P => fallible-or-block, ... };
                 let init = l.init.as_ref().unwrap();
@@ -681,6 +832,20 @@ impl<'a> Tr<'a> {
         }
     }
 
+    fn rmut_call<'e>(&self, e: &'e Expr) -> Option<&'e syn::ExprMethodCall> {
+        let inner = match e {
+            Expr::Try(t) => &*t.expr,
+            other => other,
+        };
+        if let Expr::MethodCall(m) = inner {
+            let key = format!("{}/{}", m.method, m.args.len());
+            if self.t.rmutmethod.contains_key(&key) {
+                return Some(m);
+            }
+        }
+        None
+    }
+
     // an arm whose value needs the monad (a fallible call) or is a block
     fn arm_needs_block(&self, body: &Expr) -> bool {
         match body {
@@ -691,12 +856,46 @@ impl<'a> Tr<'a> {
 
     fn stmt_expr(&mut self, e: &Expr, rest: &[Stmt], k: &K) -> R<String> {
         let text = toks(e);
-        for (key, var, term) in self.t.smap.clone() {
+        for (key, vars, terms) in self.t.smap.clone() {
             if key == text {
-                let term = self.subst_vars(&term);
-                let c = self.rebind(&var)?;
+                let terms: Vec<String> = terms.iter().map(|t| self.subst_vars(t)).collect();
+                let mut names = Vec::new();
+                for v in &vars {
+                    names.push(self.rebind(v)?);
+                }
                 let restc = self.seq(rest, k)?;
-                return Ok(format!("let {} := {} in\n{}", c, term, restc));
+                let mut out = restc;
+                for (c, term) in names.iter().zip(terms.iter()).rev() {
+                    out = format!("let {} := {} in\n{}", c, term, out);
+                }
+                return Ok(out);
+            }
+        }
+        // x.m(args)?;  with m a mutating method of the table (fallible: the error propagates)
+        if let Expr::Try(tr) = e {
+            if let Expr::MethodCall(m) = &*tr.expr {
+                let key = format!("{}/{}", m.method, m.args.len());
+                let (tmpl, fallible) = match (self.t.pmutmethod.get(&key), self.t.mutmethod.get(&key)) {
+                    (Some(t), _) => (Some(t.clone()), true),
+                    (None, Some(t)) => (Some(t.clone()), false),
+                    _ => (None, false),
+                };
+                if let Some(tmpl) = tmpl {
+                    let recv = toks(&m.receiver);
+                    let mut binds = Vec::new();
+                    let (r0, _) = self.expr(&m.receiver, &mut binds)?;
+                    let mut args = vec![r0];
+                    for a in &m.args {
+                        args.push(self.expr(a, &mut binds)?.0);
+                    }
+                    let v = Self::subst(&tmpl, &args);
+                    let c = self.rebind(&recv)?;
+                    let restc = self.seq(rest, k)?;
+                    return Ok(Self::wrap_binds(
+                        binds,
+                        if fallible { format!("obind ({}) (fun {} =>\n{})", v, c, restc) } else { format!("let {} := {} in\n{}", c, v, restc) },
+                    ));
+                }
             }
         }
         // x.m(args).unwrap();  with m a fallible mutating method of the table
@@ -759,13 +958,9 @@ impl<'a> Tr<'a> {
                 let restc = self.seq(rest, k)?;
                 Ok(Self::wrap_binds(binds, format!("let {} := {} in\n{}", c, val, restc)))
             }
-            Expr::ForLoop(f) if self.loop_depth == 0 && !scan_block_with(&f.body, self.t.mutmethod.keys().cloned().collect()).value_return => {
+            Expr::ForLoop(f) if self.loop_depth == 0 && !scan_block_with(&f.body, self.mk_scan()).value_return => {
                 // a loop that only updates outer variables: a fold over the iterated list
-                let var = match &*f.pat {
-                    Pat::Ident(i) => i.ident.to_string(),
-                    _ => return Err(format!("for pattern {}", toks(&f.pat))),
-                };
-                let sc = scan_block_with(&f.body, self.t.mutmethod.keys().cloned().collect());
+                let sc = scan_block_with(&f.body, self.mk_scan());
                 let vars: Vec<String> = sc.assigned.into_iter().filter(|v| self.lookup(v).is_some()).collect();
                 let mut binds = Vec::new();
                 let (it, _) = self.expr(&f.expr, &mut binds)?;
@@ -780,11 +975,18 @@ impl<'a> Tr<'a> {
                     params.push(self.rebind(v)?);
                 }
                 self.env.push(HashMap::new());
-                let kind = self.t.kinds.get(&var).cloned().unwrap_or(Kind::Other);
-                let xv = self.bind(&var, kind);
-                let body = self.seq(&f.body.stmts, &K::Join(vars.clone()));
+                let xpat = self.for_pattern(&f.pat);
+                let body = match &xpat {
+                    Ok(_) => self.seq(&f.body.stmts, &K::Join(vars.clone())),
+                    Err(e) => Err(e.clone()),
+                };
                 self.env = saved;
-                let body = body?;
+                let xpat = xpat?;
+                let (xv, body) = if xpat.starts_with("'(") {
+                    ("x_it".to_string(), format!("let {} := x_it in\n{}", xpat, body?))
+                } else {
+                    (xpat, body?)
+                };
                 let tuple = |v: &Vec<String>| match v.len() {
                     0 => "tt".to_string(),
                     1 => v[0].clone(),
@@ -809,21 +1011,24 @@ impl<'a> Tr<'a> {
             Expr::If(i) => self.if_stmt(i, rest, k),
             Expr::Match(m) => self.match_stmt(m, rest, k),
             Expr::ForLoop(f) => {
-                let var = match &*f.pat {
-                    Pat::Ident(i) => i.ident.to_string(),
-                    _ => return Err(format!("for pattern {}", toks(&f.pat))),
-                };
                 let mut binds = Vec::new();
                 let (it, _) = self.expr(&f.expr, &mut binds)?;
                 let saved = self.env.clone();
                 self.env.push(HashMap::new());
-                let kind = self.t.kinds.get(&var).cloned().unwrap_or(Kind::Other);
-                let c = self.bind(&var, kind);
+                let xpat = self.for_pattern(&f.pat);
                 self.loop_depth += 1;
-                let body = self.seq(&f.body.stmts, &K::LoopNext);
+                let body = match &xpat {
+                    Ok(_) => self.seq(&f.body.stmts, &K::LoopNext),
+                    Err(e) => Err(e.clone()),
+                };
                 self.loop_depth -= 1;
                 self.env = saved;
-                let body = body?;
+                let xpat = xpat?;
+                let (c, body) = if xpat.starts_with("'(") {
+                    ("x_it".to_string(), format!("let {} := x_it in\n{}", xpat, body?))
+                } else {
+                    (xpat, body?)
+                };
                 let restc = if self.loop_depth > 0 {
                     // still inside an outer loop body: falling out of this loop continues that body
                     self.seq(rest, k)?
@@ -908,7 +1113,7 @@ impl<'a> Tr<'a> {
     // an `if` / `match` STATEMENT that is followed by more code and never returns a value early is
     // translated once and rejoined (the continuation is not duplicated into its branches)
     fn scan(&self, e: &Expr) -> Scan {
-        scan_expr_with(e, self.t.mutmethod.keys().chain(self.t.pmutmethod.keys()).cloned().collect())
+        scan_expr_with(e, self.mk_scan())
     }
 
     fn joinable(&self, e: &Expr, rest: &[Stmt], k: &K) -> bool {
@@ -1004,6 +1209,24 @@ impl<'a> Tr<'a> {
             let els = else_code(self)?;
             return Ok(Self::wrap_binds(binds, format!("match {} with\n| {} =>\n{}\n| _ =>\n{}\nend", scrut, pat, then, els)));
         }
+        let ctext = toks(&*i.cond);
+        for (key, vars, term) in self.t.condmut.clone() {
+            if key == ctext {
+                // if <mutating condition> { return .. }  — otherwise go on with the updated variables
+                if i.else_branch.is_some() {
+                    return Err("a mutating condition with an else branch".into());
+                }
+                let term = self.subst_vars(&term);
+                let then = self.block(&i.then_branch, &[], &K::NoFall)?;
+                let mut names = Vec::new();
+                for v in &vars {
+                    names.push(self.rebind(v)?);
+                }
+                let pat = if names.len() == 1 { names[0].clone() } else { format!("({})", names.join(", ")) };
+                let restc = self.seq(rest, k)?;
+                return Ok(format!("match {} with\n| None =>\n{}\n| Some {} =>\n{}\nend", term, then, pat, restc));
+            }
+        }
         let mut binds = Vec::new();
         let (c, _) = self.expr(&i.cond, &mut binds)?;
         let then = self.block(&i.then_branch, rest, k)?;
@@ -1028,6 +1251,55 @@ impl<'a> Tr<'a> {
     fn match_stmt(&mut self, m: &ExprMatch, rest: &[Stmt], k: &K) -> R<String> {
         let mut binds = Vec::new();
         let (scrut, _) = self.expr(&m.expr, &mut binds)?;
+        let numeric = m.arms.iter().all(|a| a.guard.is_none() && matches!(&a.pat, Pat::Lit(_) | Pat::Range(_) | Pat::Wild(_)))
+            && m.arms.iter().any(|a| matches!(&a.pat, Pat::Lit(_) | Pat::Range(_)));
+        if numeric {
+            // match n { 0 => .., 1 => .., 2..=1024 => .., _ => .. }  as a chain of comparisons, in arm order
+            let mut conds = Vec::new();
+            let mut bodies = Vec::new();
+            for a in &m.arms {
+                let c = match &a.pat {
+                    Pat::Lit(l) => Some(format!("({} =? {})", scrut, toks(l))),
+                    Pat::Range(r) => {
+                        let mut parts = Vec::new();
+                        if let Some(lo) = &r.start {
+                            parts.push(format!("({} <=? {})", toks(lo), scrut));
+                        }
+                        if let Some(hi) = &r.end {
+                            match r.limits {
+                                syn::RangeLimits::Closed(_) => parts.push(format!("({} <=? {})", scrut, toks(hi))),
+                                syn::RangeLimits::HalfOpen(_) => parts.push(format!("({} <? {})", scrut, toks(hi))),
+                            }
+                        }
+                        Some(format!("({})", parts.join(" && ")))
+                    }
+                    _ => None,
+                };
+                let saved = self.env.clone();
+                let body = self.arm_body(&a.body, rest, k);
+                self.env = saved;
+                conds.push(c);
+                bodies.push(body?);
+            }
+            let mut out = String::new();
+            let mut closed = false;
+            for (c, b) in conds.iter().zip(bodies.iter()) {
+                match c {
+                    Some(c) => {
+                        let _ = write!(out, "if {} then\n{}\nelse ", c, b);
+                    }
+                    None => {
+                        out.push_str(b);
+                        closed = true;
+                        break;
+                    }
+                }
+            }
+            if !closed {
+                return Err("a match on numbers needs a catch-all arm".into());
+            }
+            return Ok(Self::wrap_binds(binds, format!("({})", out)));
+        }
         // the catch-all arm (needed as the fall-through of guarded arms)
         let mut fallback: Option<&syn::Arm> = None;
         for a in &m.arms {
@@ -1068,6 +1340,7 @@ struct Scan {
     value_return: bool,
     assigned: Vec<String>,
     mutmethods: Vec<String>,
+    stmt_vars: Vec<(String, Vec<String>)>, // statement / condition texts of the table that assign variables
 }
 impl<'ast> syn::visit::Visit<'ast> for Scan {
     fn visit_expr_return(&mut self, r: &'ast syn::ExprReturn) {
@@ -1091,6 +1364,21 @@ impl<'ast> syn::visit::Visit<'ast> for Scan {
         syn::visit::visit_expr_assign(self, a);
     }
     fn visit_expr_closure(&mut self, _c: &'ast syn::ExprClosure) {}
+    fn visit_expr(&mut self, e: &'ast Expr) {
+        if !self.stmt_vars.is_empty() {
+            let t = toks(e);
+            for (k, vs) in &self.stmt_vars {
+                if *k == t {
+                    for v in vs {
+                        if !self.assigned.contains(v) {
+                            self.assigned.push(v.clone());
+                        }
+                    }
+                }
+            }
+        }
+        syn::visit::visit_expr(self, e);
+    }
     fn visit_expr_binary(&mut self, b: &'ast syn::ExprBinary) {
         if is_assign_op(&b.op) {
             let n = toks(&b.left);
@@ -1112,19 +1400,23 @@ impl<'ast> syn::visit::Visit<'ast> for Scan {
     }
 }
 
+// a string / char literal as the list of its UTF-8 bytes
+fn byte_list(b: &[u8]) -> String {
+    let parts: Vec<String> = b.iter().map(|x| format!("x{:02x}", x)).collect();
+    format!("[{}]", parts.join("; "))
+}
+
 fn is_assign_op(op: &BinOp) -> bool {
     matches!(op, BinOp::AddAssign(_) | BinOp::SubAssign(_) | BinOp::MulAssign(_) | BinOp::DivAssign(_)
         | BinOp::ShrAssign(_) | BinOp::ShlAssign(_) | BinOp::BitAndAssign(_) | BinOp::BitOrAssign(_))
 }
 
-fn scan_expr_with(e: &Expr, mutmethods: Vec<String>) -> Scan {
-    let mut sc = Scan { value_return: false, assigned: Vec::new(), mutmethods };
+fn scan_expr_with(e: &Expr, mut sc: Scan) -> Scan {
     syn::visit::Visit::visit_expr(&mut sc, e);
     sc
 }
 
-fn scan_block_with(b: &Block, mutmethods: Vec<String>) -> Scan {
-    let mut sc = Scan { value_return: false, assigned: Vec::new(), mutmethods };
+fn scan_block_with(b: &Block, mut sc: Scan) -> Scan {
     syn::visit::Visit::visit_block(&mut sc, b);
     sc
 }
@@ -1134,6 +1426,7 @@ fn parse_kind(s: &str) -> Kind {
     match s {
         "num" => Kind::Num,
         "bytes" => Kind::Bytes,
+        "tagk" => Kind::Tag,
         _ => Kind::Other,
     }
 }
@@ -1206,15 +1499,34 @@ fn parse_targets(text: &str) -> (String, Vec<Target>) {
             }
             "smap" => {
                 // smap <rust statement> => <var> := <coq term>
+                // several updates: v1 := t1 ;; v2 := t2 (all right-hand sides see the old values)
                 let (a, b) = arrow(rest);
-                let (v, term) = b.split_once(":=").expect("smap needs var := term");
-                t.smap.push((norm(&a), v.trim().to_string(), term.trim().to_string()));
+                let mut vs = Vec::new();
+                let mut ts = Vec::new();
+                for part in b.split(";;") {
+                    let (v, term) = part.split_once(":=").expect("smap needs var := term");
+                    vs.push(v.trim().to_string());
+                    ts.push(term.trim().to_string());
+                }
+                t.smap.push((norm(&a), vs, ts));
             }
             "letmap" | "pletmap" => {
                 let (a, b) = arrow(rest);
                 t.letmap.insert(a, (b, key == "pletmap"));
             }
             "arith" => t.wrap64 = rest == "wrap64",
+            "rmutmethod" => {
+                let (a, b) = arrow(rest);
+                t.rmutmethod.insert(norm(&a), b);
+            }
+            "condmut" => {
+                // condmut <condition> => v1, v2 := <option of the new values; None when the condition holds>
+                let (a, b) = arrow(rest);
+                let (vs, term) = b.split_once(":=").expect("condmut needs vars := term");
+                t.condmut.push((norm(&a), vs.split(',').map(|v| v.trim().to_string()).collect(), term.trim().to_string()));
+            }
+            "retvars" => t.retvars = rest.split_whitespace().map(|s| s.to_string()).collect(),
+            "recfuel" => t.recfuel = Some(rest.to_string()),
             "skip" => t.skip_macros = rest.split_whitespace().map(|s| s.to_string()).collect(),
             "param" => {
                 // param <rust> <coq> <kind> : <coq type>
@@ -1359,7 +1671,7 @@ fn main() {
                 syn::FnArg::Receiver(_) => None,
             })
             .collect();
-        let declared: Vec<String> = t.params.iter().map(|p| p.0.clone()).filter(|p| p != "self").collect();
+        let declared: Vec<String> = t.params.iter().map(|p| p.0.clone()).filter(|p| p != "self" && !p.starts_with("self.")).collect();
         if rust_params != declared {
             eprintln!("rs2coq: {}: parameters are {:?}, the table declares {:?}", t.func, rust_params, declared);
             failed = true;
@@ -1368,18 +1680,30 @@ fn main() {
         module_consts(&file, &mut t);
         local_consts(block, &mut t);
         let mut tr = Tr { t: &t, fresh: 0, env: vec![HashMap::new()], loop_depth: 0 };
-        let mut header = format!("Definition {}", t.coq);
+        let kw = if t.recfuel.is_some() { "Fixpoint" } else { "Definition" };
+        let mut header = format!("{} {}", kw, t.coq);
+        if t.recfuel.is_some() {
+            header.push_str(" (fuel : nat)");
+        }
         for (r, c, ty) in &t.params {
             let kind = t.kinds.get(r).cloned().unwrap_or(Kind::Other);
             tr.env[0].insert(r.clone(), (c.clone(), kind));
             let _ = write!(header, " ({} : {})", c, ty);
         }
         for (c, ty) in &t.extra_params {
-            header = header.replacen(&format!("Definition {}", t.coq), &format!("Definition {} ({} : {})", t.coq, c, ty), 1);
+            header = header.replacen(&format!("{} {}", kw, t.coq), &format!("{} {} ({} : {})", kw, t.coq, c, ty), 1);
+        }
+        if t.recfuel.is_some() {
+            header.push_str(" {struct fuel}");
         }
         let _ = write!(header, " : res ({}) :=\n", t.ret);
         match tr.seq(&block.stmts, &K::End) {
             Ok(body) => {
+                // a recursive function: the recursive calls of the table use fuel'
+                let body = match &t.recfuel {
+                    Some(site) => format!("match fuel with\n| O => Panic {}\n| S fuel' =>\n{}\nend", site, body),
+                    None => body,
+                };
                 text.push_str(&format!("\n(* {} :: {} *)\n", t.file, t.func));
                 text.push_str(&header);
                 if t.scope.is_empty() {
